@@ -28,6 +28,7 @@ class Harness:
         self.sample = None
         self._n = 0
         self.maxlen = 0
+        self.encode_side = False
 
     # -- names -------------------------------------------------------------------------
     def fresh(self, p="v"):
@@ -57,7 +58,7 @@ class Harness:
         validity assumption is made by the stub at the point the decoder validates the text; for
         encode-side harnesses (no decoder in front) it is stated here."""
         v, ex = self.sym_bytes(n, p)
-        if n and self.stub_utf8 != "assume":
+        if n and (self.stub_utf8 != "assume" or self.encode_side):
             self.decl.append("kani::assume(crate::utf8::is_valid(&%s));" % v)
         return v, ex
 
